@@ -196,6 +196,13 @@ Theorem clean_no_mixed : forall s,
 Proof. exact clean_no_mixed_l. Qed.
 Print Assumptions clean_no_mixed.
 
+(** ... and the condition is exact: for a text without mixed clusters, the cleaned text has a
+    mixed cluster (the harness' class KF1) precisely when the text is not seam-free *)
+Theorem clean_mixed_iff : forall s,
+  no_mixedb s = true -> no_mixedb (clean (segment s)) = seam_free s.
+Proof. exact clean_mixed_iff_l. Qed.
+Print Assumptions clean_mixed_iff.
+
 Theorem clean_idem_seam : forall s,
   no_mixedb s = true -> seam_free s = true ->
   clean (segment (clean (segment s))) = clean (segment s).
